@@ -41,10 +41,16 @@ pub uninterp spec fn cursor_rest(c: &VerifCursor) -> Seq<u8>;
 impl ReadSpecImpl for VerifEmpty {
     open spec fn stream(&self) -> Seq<u8> { Seq::empty() }
     open spec fn failed(&self) -> bool { false }
+    open spec fn release(&self) -> Seq<u8> { Seq::empty() }   // owns no source
+    open spec fn drained(&self) -> Seq<u8> { Seq::empty() }
+    open spec fn owns_source(&self) -> bool { false }
 }
 impl ReadSpecImpl for VerifCursor {
     open spec fn stream(&self) -> Seq<u8> { cursor_rest(self) }
     open spec fn failed(&self) -> bool { false }
+    open spec fn release(&self) -> Seq<u8> { Seq::empty() }   // owns no source
+    open spec fn drained(&self) -> Seq<u8> { Seq::empty() }
+    open spec fn owns_source(&self) -> bool { false }
 }
 #[verifier::external] impl Read for VerifEmpty { fn read(&mut self, buf: &mut [u8]) -> io::Result<usize> { self.e.read(buf) } }
 #[verifier::external] impl Read for VerifCursor { fn read(&mut self, buf: &mut [u8]) -> io::Result<usize> { self.c.read(buf) } }
@@ -99,9 +105,11 @@ impl HeaderField {
 
 // R3 wrappers: boxing preserves the ghost view (Rust dynamic dispatch is trusted)
 pub uninterp spec fn dyn_stream(b: &Box<dyn Read>) -> Seq<u8>;
+pub uninterp spec fn dyn_release(b: &Box<dyn Read>) -> Seq<u8>;
+pub uninterp spec fn dyn_owns_source(b: &Box<dyn Read>) -> bool;
 #[verifier::external_body]
 pub fn verif_box_dyn_Read<R: Read + 'static>(x: Box<R>) -> (r: Box<dyn Read>)
-    ensures dyn_stream(&r) == (*x).stream()
+    ensures dyn_stream(&r) == (*x).stream(), dyn_release(&r) == (*x).release(), dyn_owns_source(&r) == (*x).owns_source()
 { x }
 #[verifier::external_body]
 pub fn verif_box_dyn_Write<W: Write + 'static>(x: Box<W>) -> (r: Box<dyn Write>)
@@ -148,6 +156,12 @@ pub open spec fn f_body(hs: Seq<Header>, src: Seq<u8>) -> Seq<u8> {
     else if f_te(hs) { dechunk(src) }                             // concatenated chunk payloads
     else { Seq::empty() }                                         // no framing: empty body
 }
+/// C09: how many bytes of the source the body occupies (where the next request starts)
+pub open spec fn f_body_end(hs: Seq<Header>, src: Seq<u8>) -> int {
+    if f_cl(hs) is Some { if src.len() >= f_cl(hs)->Some_0 { f_cl(hs)->Some_0 as int } else { src.len() as int } }
+    else if f_te(hs) { chunked_len(src) as int }
+    else { 0 }
+}
 /// small bodies are pre-read (so the source is released before the request is even delivered) -- never for 100-continue
 pub open spec fn f_buffered(hs: Seq<Header>) -> bool {
     !f_upgrade(hs) && f_cl(hs) is Some && 0 < f_cl(hs)->Some_0 <= 1024 && !f_continue(hs)
@@ -155,6 +169,8 @@ pub open spec fn f_buffered(hs: Seq<Header>) -> bool {
 
 impl Request {
     pub closed spec fn body(&self) -> Seq<u8> { dyn_stream(&self.data_reader->Some_0) }
+    pub closed spec fn body_release(&self) -> Seq<u8> { dyn_release(&self.data_reader->Some_0) }
+    pub closed spec fn keeps_source(&self) -> bool { dyn_owns_source(&self.data_reader->Some_0) }
     pub closed spec fn has_body_reader(&self) -> bool { self.data_reader is Some }
     pub closed spec fn answered(&self) -> bool { self.response_writer is None }
     pub closed spec fn declared_len(&self) -> Option<usize> { self.body_length }
@@ -180,6 +196,12 @@ impl Request {
                 &&& f_expect_ok(headers@) && !f_cl_bad(headers@)
                 // O-FRAMING (C03): the readable body is exactly what the framing designates ...
                 &&& rq.has_body_reader() && rq.body() == f_body(headers@, source_data.stream())
+                // O-REL-1 (C09): a reader that keeps the source hands it on exactly at the end of the body when it is
+                // dropped, however much of the body was read (with O-REL-2 / O-DRAIN / O-FUSED-DRAIN of U-READERS)
+                &&& !f_upgrade(headers@) && !f_buffered(headers@) && ((f_cl(headers@) is Some && f_cl(headers@)->Some_0 > 0 && source_data.stream().len() >= f_cl(headers@)->Some_0) || (f_cl(headers@) is None && f_te(headers@)))
+                        ==> rq.body_release() == source_data.stream().skip(f_body_end(headers@, source_data.stream()))
+                // O-READAHEAD (C11): a request with no body or a small one (not awaiting 100-continue) does not keep the source
+                &&& !f_upgrade(headers@) && (f_buffered(headers@) || f_cl(headers@) == Some(0usize) || (f_cl(headers@) is None && !f_te(headers@))) ==> !rq.keeps_source()
                 // ... the declared length is reported exactly when Content-Length decided
                 &&& rq.declared_len() == f_cl(headers@)
                 // C18: the interim-response flag
@@ -276,6 +298,14 @@ impl Request {
         assert(src0.take(0) =~= Seq::<u8>::empty());
         assert(dyn_stream(&reader) =~= f_body(headers@, src0));
     }
+//@before? 1 Box::new(io::empty())
+            // C09/C11: no body: the source is released untouched when new_request returns
+            proof { assert(source_data.stream() == src0); }
+//@before? 1 Box::new(Cursor::new(buffer))
+            // C09/C11: a buffered body has been consumed exactly, the source is released right after it
+            proof { assert(source_data.stream() == src0.skip(content_length as int)); }
+//@before? 2 Box::new(io::empty())
+        proof { assert(source_data.stream() == src0); }
 //@closure 1 |h: &&Header| -> (b: bool) ensures b == hdr_is(**h, "Transfer-Encoding"@)
 //@closure 2 |h: &Header| -> (o: AsciiString) ensures o == h.value
 //@closure 3 |h: &&Header| -> (b: bool) ensures b == hdr_is(**h, "Content-Length"@)
